@@ -276,6 +276,12 @@ def gen_spec(rng, size):
             del spell[s]
         spell[n] = n        # own name stays addressable for queries (not for references)
     sp["nonmult"] = nonmult
+    # dimension lines: a base dimension written explicitly as well, and one that no unit uses
+    sp["free_dims"] = [rng.choice(sp["dims"])] if rng.random() < 0.5 else []
+    if rng.random() < 0.6:
+        fd = "[" + nm.fresh("d", LOWER) + "]"
+        sp["free_dims"].append(fd)
+        sp["dims"].append(fd)
     # derived dimensions
     for _ in range(rng.randint(2, 4)):
         pool = sp["dims"] + [x["name"] for x in sp["ddims"]]      # derived dimensions may build on derived dimensions
@@ -424,12 +430,12 @@ def section_a(sp):
             if e < 0:
                 rhs += f" / {n}" + ("" if e == -1 else f" ** {-e}")
         recs.append({"kind": "ddim", "name": d["name"], "rhs": rhs})
-    if sp["dims"]:
-        pass
+    for d in sp["free_dims"]:
+        recs.append({"kind": "dim", "name": d})
     return recs
 
 
-def render_files(sp, v, order=None, rng=None, nparts=3):
+def render_files(sp, v, order=None):
     """-> ({relative path: text}, records in file order with their printed line).  Section A is split over
     main.txt -> sub/part1.txt -> sub/part2.txt (nested @import, relative to the importing file)."""
     recs = section_a(sp)
@@ -439,7 +445,6 @@ def render_files(sp, v, order=None, rng=None, nparts=3):
     n = len(printed)
     cut1, cut2 = n // 3, (2 * n) // 3
     com = (lambda s: [f"# {s}", ""]) if v["id"] != 1 else (lambda s: [f"#{s}"])
-    sep_tab = "\t" if v["tabs"] else ""
     part2 = com("part 2") + [(("\t" + ln.lstrip(" ")) if v["tabs"] else ln) for _, ln in printed[cut1:cut2]]
     part1 = com("part 1") + [ln for _, ln in printed[:cut1]] + ["@import part2.txt" + ("   # nested" if v["id"] == 2 else "")]
     main = com("generated definition file") + ["@import sub/part1.txt"] + [ln for _, ln in printed[cut2:]]
@@ -666,7 +671,7 @@ def expected_groups(sp):
 
 
 # ===================================================================== Coq cases from pint observations
-def checks_from_pint(ureg, sp, with_order=True):
+def checks_from_pint(ureg, sp):
     """observations of the reference registry as Coq [check] terms"""
     out = []
     for s in sorted(sp["spell"]):
@@ -862,7 +867,7 @@ def run(ck):
                "and redefinitions, @defaults, nested @import, comments) x 6 permutations of the unit/prefix/dimension lines x 3 "
                "layouts x loading paths file / list to constructor / load_definitions / define() / cold / warm disk cache, and "
                "non_int_type float/Decimal/Fraction; (c) one seeded fault per file from a catalogue of %d kinds. non-trivial = "
-               "distinct (file, variant, path, observation) / distinct strings" % (nfiles, 52))
+               "distinct (file, variant, path, observation) / distinct strings" % (nfiles, len(LINE_LEVEL) + 15))
     ck.assumptions += [
         "the Python half of the reader (harness/t1_defs.py, harness/c10.py def_lines) resolves @import, recognises block "
         "directives and @end, and T1 tokenises right-hand sides; the Coq half (Model/DefFile.v) strips comments, splits at '=', "
@@ -1179,8 +1184,6 @@ def part_b_file(ck, rng, tmp, fi, sp, quirk, add, fail, stats, thorough, fgroups
     replay_base = {"file_index": fi, "seed": ck.seed}
     for oi, order in enumerate(orders):
         for v in LAYOUTS:
-            if oi == 0 and v["id"] != 0 and False:
-                continue
             vdir = tmp / f"f{fi}" / f"o{oi}l{v['id']}"
             files, printed = render_files(sp, v, order)
             main = write_files(vdir, files)
@@ -1292,6 +1295,7 @@ def part_b_file(ck, rng, tmp, fi, sp, quirk, add, fail, stats, thorough, fgroups
                     # Coq printer = generator printer, on every printed record
                     for r, ln, extra in printed:
                         add(f"CPrint {coq_layout(dict(v, indent=v['indent'] + extra))} {coq_defrec(r)} {coq_str(ln)}", {"print": ln}, ("b-print", ln))
+                        add(f"CLine {coq_str(ln)} (Some {coq_defrec(r)})", {"line": ln}, ("b-line", ln))
                 except t1_defs.T1Error as e:
                     ck.broken.append(f"T1 cannot read generated file {fi}: {e}")
                     return
@@ -1306,6 +1310,7 @@ def part_b_file(ck, rng, tmp, fi, sp, quirk, add, fail, stats, thorough, fgroups
                 if v["id"] != 0 and oi <= 1:
                     for r, ln, extra in printed[:6] + printed[-2:]:
                         add(f"CPrint {coq_layout(dict(v, indent=v['indent'] + extra))} {coq_defrec(r)} {coq_str(ln)}", {"print": ln}, ("b-print", ln))
+                        add(f"CLine {coq_str(ln)} (Some {coq_defrec(r)})", {"line": ln}, ("b-line", ln))
             # ---- oracles: every path / order / layout says the same
             for pk in PATHS:
                 u, m = per_path[pk]
@@ -1313,7 +1318,6 @@ def part_b_file(ck, rng, tmp, fi, sp, quirk, add, fail, stats, thorough, fgroups
                     continue
                 for section in m:
                     if m[section] != ref[section]:
-                        what = "order" if (pk == "file" and oi > 0 and v["id"] == 0) else ("layout" if pk == "file" and oi == 0 else None)
                         diff = first_diff(ref[section], m[section])
                         if pk == "file":
                             key = f"{'order' if oi > 0 else 'layout'}-dependence:{section}"
